@@ -1,5 +1,6 @@
 (* C08 correspondence: case type, model run (as sx observation), executable statement spec_ok. *)
-From Verif Require Import Base.Prelude Base.StrUtil Base.Index Model.MapSpec Model.MapSpecSpec.
+From Verif Require Import Base.Prelude Base.StrUtil Base.Index Model.MapSpec Model.MapSpecSpec Model.IndexOps Model.MapSpecAxes.
+From Verif Require Model.XrLabelSpec.
 
 Definition raw := list (str * list (option str)).
 
@@ -9,7 +10,15 @@ Inductive case :=
 | CShape (i o : raw) (ishapes internal : shape_dict)  (* MapSpec(..).shape(..) *)
 | CKeys (i o : raw) (sh : list nat)                   (* output_key / input_keys for all linear indices *)
 | CRename (i o : raw) (ren : list (str * str))
-| CAddAxes (i o : raw) (ax : list (option str)).
+| CAddAxes (i o : raw) (ax : list (option str))
+| CAxes (specs : list (raw * raw))                    (* validate_consistent_axes / mapspec_axes / mapspec_dimensions *)
+| CIdx (c : idx_call)                                 (* direct call of one index helper *)
+| CGen (fn : str).
+    (* translator obligation for the function `fn` ("corollaries" = the transfer theorems): harness/translate_index.py
+       regenerates coq/gen/Gen_Index.v from the Python source, coqc re-checks coq/gen/Check_Index.v against it.
+       observed: [translation status; proof status] *)
+
+Definition gen_expected : sx := SL [SS (s "translated"); SS (s "proved")].
 
 Definition sx_axis (a : option str) : sx := match a with None => SNone | Some i => SS i end.
 Definition sx_aspec (a : aspec) : sx := SL [SS (aname a); SL (map sx_axis (axes a))].
@@ -18,6 +27,10 @@ Definition sx_nats (l : list nat) : sx := SL (map SN l).
 Definition sx_kitem (k : kitem) : sx := match k with KInt n => SN n | KAll => SS (s ":") end.
 Definition sx_keys (d : list (str * list kitem)) : sx :=
   SL (map (fun kv => SL [SS (fst kv); SL (map sx_kitem (snd kv))]) d).
+
+Definition sx_axes_dict (d : list (str * list (option str))) : sx :=
+  SL (map (fun kv => SL [SS (fst kv); SL (map sx_axis (snd kv))]) d).
+Definition sx_dims (d : list (str * nat)) : sx := SL (map (fun kv => SL [SS (fst kv); SN (snd kv)]) d).
 
 Definition run_keys (m : mapspec) (sh : list nat) : sx :=
   let n := prod sh in
@@ -48,6 +61,15 @@ Definition run (c : case) : sx :=
       | Ok m => sx_of_result sx_mapspec (add_axes m ax)
       | Err e => SL [SS (s "bad-case"); SErr e]
       end
+  | CAxes specs =>
+      match mapM (fun io => build (fst io) (snd io)) specs with
+      | Err e => SL [SS (s "bad-case"); SErr e]
+      | Ok ms => SL [sx_of_result (fun _ => SL []) (validate_consistent_axes ms);
+                     sx_axes_dict (mapspec_axes ms);
+                     sx_dims (mapspec_dimensions ms)]
+      end
+  | CIdx c => sx_of_result sx_nats (idx_run c)
+  | CGen _ => gen_expected
   end.
 
 (* ---------- decoding of observations ---------- *)
@@ -126,6 +148,108 @@ Definition shape_ok (m : mapspec) (ish int : shape_dict) (o : sx) : bool :=
     end
   else sx_is_err o.
 
+(* a list of MapSpecs (as a pipeline holds them).  `XrLabelSpec.consistent` is the declarative reading of "the axes of
+   the mapspecs are consistent": two occurrences of one array name have the same rank and the same name wherever both
+   name a position.  Then validate_consistent_axes must pass, mapspec_axes must have, for every array, one entry per
+   dimension that agrees with every occurrence on every named position and is a name only if some occurrence uses
+   that name there (None for ':'-only dimensions), and mapspec_dimensions must give the rank; otherwise
+   validate_consistent_axes must raise. *)
+Definition un_axes_dict (x : sx) : option (list (str * list (option str))) :=
+  match x with
+  | SL l => optM (fun kv => match kv with
+                            | SL [SS n; SL ax] => option_map (fun a => (n, a)) (optM un_axis ax)
+                            | _ => None end) l
+  | _ => None
+  end.
+Definition un_dims (x : sx) : option (list (str * nat)) :=
+  match x with
+  | SL l => optM (fun kv => match kv with
+                            | SL [SS n; r] => option_map (fun k => (n, k)) (un_nat r)
+                            | _ => None end) l
+  | _ => None
+  end.
+
+Definition axes_entry_ok (all : list aspec) (d : list (str * list (option str))) (a : aspec) : bool :=
+  match dict_get d (aname a) with
+  | Some ax =>
+      (length ax =? rank a)
+      && forallb2 (fun own got => match own with Some x => opt_eqb str_eqb got (Some x) | None => true end) (axes a) ax
+      && forallb (fun ig => match snd ig with
+                            | Some x => existsb (fun b => str_eqb (aname b) (aname a)
+                                                          && opt_eqb (opt_eqb str_eqb) (nth_error (axes b) (fst ig))
+                                                                     (Some (Some x))) all
+                            | None => true end) (combine (seq 0 (length ax)) ax)
+  | None => false
+  end.
+
+Definition axes_ok (ms : list mapspec) (o : sx) : bool :=
+  if negb (forallb wf_decl ms) then true else
+  let all := all_aspecs ms in
+  match o with
+  | SL [v; axx; dimx] =>
+      if XrLabelSpec.consistent all then
+        match un_ok v, un_axes_dict axx, un_dims dimx with
+        | Some _, Some d, Some dd =>
+            forallb (fun a => axes_entry_ok all d a && opt_eqb Nat.eqb (dict_get dd (aname a)) (Some (rank a))) all
+        | _, _, _ => false
+        end
+      else sx_is_err v
+  | _ => false
+  end.
+
+(* direct calls of the index helpers, judged against what their docstrings / the property say:
+   strides[k] = product of the later dimensions; _shape_to_key(sh, n) = the n-th position in row-major
+   (itertools.product) order; select_by_mask interleaves such that the masked / unmasked entries of the result are the
+   two tuples (too short a tuple must raise); external/internal_shape_from_mask keep the entries with mask True/False *)
+Definition idx_ok (c : idx_call) (o : sx) : bool :=
+  match c with
+  | IStrides sh =>
+      match un_ok o with
+      | Some x => match un_nats x with
+                  | Some st => list_eqb Nat.eqb st (map (fun k => prod (skipn (S k) sh)) (seq 0 (length sh)))
+                  | None => false end
+      | None => false
+      end
+  | IKey sh n =>
+      if forallb (fun d => 0 <? d) sh && (n <? prod sh) then
+        match un_ok o with
+        | Some x => match un_nats x with
+                    | Some key => opt_eqb (list_eqb Nat.eqb) (nth_error (all_indices sh) n) (Some key)
+                    | None => false end
+        | None => false
+        end
+      else true
+  | ISelect mask e i =>
+      if (length e =? n_true mask) && (length i =? n_false mask) then
+        match un_ok o with
+        | Some x => match un_nats x with
+                    | Some r => (length r =? length mask)
+                                && list_eqb Nat.eqb (ext_of mask r) e && list_eqb Nat.eqb (int_of mask r) i
+                    | None => false end
+        | None => false
+        end
+      else if (length e <? n_true mask) || (length i <? n_false mask) then sx_is_err o
+      else true
+  | IExt sh mask =>
+      if length sh =? length mask then
+        match un_ok o with
+        | Some x => match un_nats x with
+                    | Some r => list_eqb Nat.eqb r (map fst (filter (fun dm => snd dm) (combine sh mask)))
+                    | None => false end
+        | None => false
+        end
+      else true
+  | IInt sh mask =>
+      if length sh =? length mask then
+        match un_ok o with
+        | Some x => match un_nats x with
+                    | Some r => list_eqb Nat.eqb r (map fst (filter (fun dm => negb (snd dm)) (combine sh mask)))
+                    | None => false end
+        | None => false
+        end
+      else true
+  end.
+
 Definition renamed (ren : list (str * str)) (a : aspec) : aspec :=
   {| aname := match dict_get ren (aname a) with Some n => n | None => aname a end; axes := axes a |}.
 
@@ -184,4 +308,7 @@ Definition spec_ok (c : case) (o : sx) : bool :=
           else sx_is_err o
       | Err _ => true
       end
+  | CAxes specs => axes_ok (map (fun io => {| ins := raw_of (fst io); outs := raw_of (snd io) |}) specs) o
+  | CIdx c => idx_ok c o
+  | CGen _ => sx_eqb o gen_expected
   end.
